@@ -3,13 +3,16 @@ package c15
 import (
 	"encoding/json"
 
+	"verif/chk"
 	"verif/e2"
 )
 
 // The end-to-end half of C15: attribution of rows to the table announced for
 // their table id, decoding with the latest table map, mapper calls (engine E2).
 func init() {
-	ExtraHalves = append(ExtraHalves, e2.RunAttribution, e2.RunOrdinalAttribution, e2.RunRestart, e2.RunSchemaChange, e2.RunTableIDs, e2.RunCountChange, e2.RunCaseTwins)
+	ExtraHalves = append(ExtraHalves, e2.RunAttribution, e2.RunOrdinalAttribution, e2.RunRestart, e2.RunSchemaChange, e2.RunTableIDs, e2.RunCountChange, e2.RunCaseTwins, func(r *chk.Run) { e2.RunScale(r, "table-ids", "wide-table") }, e2.RunNested)
+	ExtraReplays["nest"] = e2.ReplayNest
+	ExtraReplays["scale"] = e2.ReplayScale
 	ExtraReplays["history"] = func(in json.RawMessage) (bool, string) { return e2.ReplayHistory("history", in) }
 	ExtraReplays["attribution"] = e2.ReplayAttribution
 	ExtraReplays["restart"] = e2.ReplayRestart
